@@ -230,6 +230,13 @@ pub fn sample_archives() -> Vec<(&'static str, Vec<u8>)> {
         v.push(("enc", a.finalize().unwrap()));
     }
     {
+        let mut sb = SolidEntryBuilder::new(enc_options(Encryption::Aes, CipherMode::CTR, Compression::No)).unwrap();
+        sb.add_entry(file_entry("hidden-name", b"hidden content", WriteOptions::store(), true)).unwrap();
+        let mut a = Archive::write_header(Vec::new()).unwrap();
+        a.add_entry(sb.build().unwrap()).unwrap();
+        v.push(("solidenc", a.finalize().unwrap()));
+    }
+    {
         let mut a = Archive::write_solid_header(Vec::new(), WriteOptions::store()).unwrap();
         a.add_entry(file_entry("w1", b"in solid archive", WriteOptions::store(), false)).unwrap();
         a.write_file("w2".into(), Metadata::new(), |w| w.write_all(b"streamed")).unwrap();
